@@ -21,9 +21,10 @@ MODEL_TARGETS = ['theories/Spec/Valid.vo', 'theories/Spec/ValidTD.vo', 'theories
 MODEL_NEEDS_IMPL = True
 SHARD = 24
 SIZES = {'quick': 900, 'thorough': 6000, 'search': 1500}
+_R4 = "; round-four features, each in about 1/3 of the problems and from its own forked random stream: 2-4 extra jobs with REPLACEMENT tasks (also mixed with pickups / services / shipments), REQUIRED breaks (exact time or offset interval, 1-2 per shift, on shifts without optional breaks and reloads; documents show them as break activities inside a stop or as stops without location), VICINITY CLUSTERING (plan.clustering with the vehicles' profile, visiting continue / return, serving original with parking 0-10, thresholds taken from the matrix, 3-5 extra single-task jobs at a pair of near locations; not together with breaks, reloads, errorCodes or general routing data)"
 RULE = ('cases: generated pragmatic problems (3-10 jobs incl. multi jobs, 1-2 places with equal or different locations / durations '
         '/ tags, 1-2 windows; 1-3 vehicle types, open and closed ends, start latest, integer fixed/distance/time prices incl. 0; '
-        'metric and non-metric integer matrices with zero-distance location pairs) x 3 configurations each. non-trivial = distinct '
+        'metric and non-metric integer matrices with zero-distance location pairs' + _R4 + ') x 3 configurations each. non-trivial = distinct '
         '(problem, document) with a tour that has waiting time, a stop with several activities, or two tours.')
 TRUSTED = ['rendering of the JSON documents into the reduced Coq types (tools/props/e2e.py); times are RFC3339 strings on whole '
            'seconds mapped to integer seconds',
@@ -31,9 +32,17 @@ TRUSTED = ['rendering of the JSON documents into the reduced Coq types (tools/pr
            'location, duration, time) and scheduled by the Core model of update_schedules; the real Route is not dumped']
 ASSUMPTIONS = ['integer-valued matrices, durations, times and prices: every f64 operation and `as i64` of the writer is exact, so '
                'equality is exact and the one-unit rounding allowance of the statement is not needed',
-               'fragment without required breaks, recharges, clustering (no commute / parking / reserved times); tours with reloads or '
-               'optional breaks and problems with general routing data (several profiles, integer scale, time-dependent matrices with '
-               'integer slopes) are covered by the independent replay only (the writer model has none of them)']
+               'fragment without recharges; tours with reloads or optional breaks and problems with general routing data (several '
+               'profiles, integer scale, time-dependent matrices with integer slopes) are covered by the independent replay only (the '
+               'writer model has none of them)',
+               'required breaks (ValidX.replay4): the break intervals a tour reports are inputs of the replay like the visiting order; the '
+               'schedule is replayed around them (adv: driving and working only outside them), two moments with nothing but break time '
+               'in between compare as equal, waiting = arrival-to-start time outside the breaks (the times are a split of the duration)',
+               'vicinity clustering (ValidX.replay_tour_cl, for a tour with a clustered stop): clustering.profile = the vehicles\' profile, '
+               'serving original; checked: the driver\'s walk through every stop (parking, commutes against the matrix, stop departure), '
+               'the legs between consecutive stop locations, loads, the statistic incl. commuting / parking with waiting = the rest of '
+               'the duration; NOT replayed for such a tour: activity-by-activity arrival times against time windows and the place tags; '
+               'the writer model covers neither required breaks nor clustering']
 
 
 def generate(rng, tier, n):
